@@ -46,9 +46,18 @@ const (
 	KMount   = "mount"   // mount tmpfs on P
 	KUmount  = "umount"  // lazy-free umount of P
 
+	KRAdd    = "radd"    // Watcher.Add(P + "/...") (recursive mode)
+	KRRemove = "rremove" // Watcher.Remove(P + "/...")
+
 	KAdd    = "add"    // Watcher.Add(P)
 	KRemove = "remove" // Watcher.Remove(P)
 	KList   = "list"   // Watcher.WatchList()
+
+	KXNew    = "xnew"    // create another Watcher (capacity N) that lives beside the one under test
+	KXAdd    = "xadd"    // other Watcher N: Add(P)
+	KXRemove = "xremove" // other Watcher N: Remove(P)
+	KXClose  = "xclose"  // other Watcher N: Close()
+	KAbsorb  = "absorb"  // start an absorb segment: nobody receives until the next sync
 
 	KSync  = "sync"  // sentinel: wait until everything so far is delivered, compare
 	KPlug  = "plug"  // park the reader goroutine in a channel send
@@ -69,9 +78,11 @@ func (s Step) String() string {
 		return fmt.Sprintf("%s(%q,%q)", s.K, string(s.P), string(s.Q))
 	case KWrite, KTrunc, KChmod, KHold:
 		return fmt.Sprintf("%s(%q,%d)", s.K, string(s.P), s.N)
-	case KRelease, KPoll:
+	case KRelease, KPoll, KXNew, KXClose:
 		return fmt.Sprintf("%s(%d)", s.K, s.N)
-	case KSync, KPlug, KList, KFdchk:
+	case KXAdd, KXRemove:
+		return fmt.Sprintf("%s(%d,%q)", s.K, s.N, string(s.P))
+	case KSync, KPlug, KList, KFdchk, KAbsorb:
 		return s.K
 	}
 	return fmt.Sprintf("%s(%q)", s.K, string(s.P))
